@@ -56,6 +56,7 @@ struct Gen<'a> {
   kw_fields: Vec<String>,
   has_year: bool,
   free: Vec<usize>, // families not yet used by a scored leaf
+  free_tags: Vec<usize>, // tag values not yet used by a scored keyword term
   kinds: BTreeSet<String>,
 }
 
@@ -174,7 +175,9 @@ impl<'a> Gen<'a> {
       }
     }
     if parts.is_empty() {
-      parts.push(self.word());
+      // no family left for a scored term: a quoted one-word phrase (phrases are never scored)
+      let w = self.word();
+      parts.push(format!("\"{w}\""));
     }
     self.rng.shuffle(&mut parts);
     parts.join(" ")
@@ -189,9 +192,20 @@ impl<'a> Gen<'a> {
         }
         None => ("match_all", json!({"type":"match_all"})),
       },
-      22..=27 if !self.kw_fields.is_empty() => {
+      22..=27 if !self.kw_fields.is_empty() && (!scored || !self.free_tags.is_empty()) => {
         let f = self.rng.pick(&self.kw_fields).clone();
-        ("term_keyword", json!({"type":"term","field": f, "value": self.tag_value()}))
+        let v = if scored {
+          let k = self.rng.below(self.free_tags.len());
+          let t = TAGS[self.free_tags.swap_remove(k)];
+          match self.rng.below(3) {
+            0 => t.to_uppercase(),
+            1 => t.to_lowercase(),
+            _ => t.to_string(),
+          }
+        } else {
+          self.tag_value()
+        };
+        ("term_keyword", json!({"type":"term","field": f, "value": v}))
       }
       28..=35 => ("match_all", json!({"type":"match_all"})),
       36..=47 => {
@@ -248,11 +262,13 @@ impl<'a> Gen<'a> {
         Some(fam) => {
           let w = *self.rng.pick(FAMILIES[fam]);
           let cs: Vec<char> = w.chars().collect();
-          let pat: String = match self.rng.below(4) {
+          // patterns keeping the first letter stay inside the family (first letters are distinct);
+          // a leading `*` crosses families and is generated below non-scoring clauses only
+          let pat: String = match self.rng.below(if scored { 3 } else { 4 }) {
             0 => format!("{}*", cs[..2.min(cs.len())].iter().collect::<String>()),
             1 => format!("{}?{}", cs[..1].iter().collect::<String>(), cs[2.min(cs.len())..].iter().collect::<String>()),
-            2 => format!("*{}", cs[cs.len().saturating_sub(2)..].iter().collect::<String>()),
-            _ => format!("{}*{}", cs[..1].iter().collect::<String>(), cs[cs.len() - 1..].iter().collect::<String>()),
+            2 => format!("{}*{}", cs[..1].iter().collect::<String>(), cs[cs.len() - 1..].iter().collect::<String>()),
+            _ => format!("*{}", cs[cs.len().saturating_sub(2)..].iter().collect::<String>()),
           };
           ("wildcard", json!({"type":"wildcard","field": self.text_field(), "value": pat}))
         }
@@ -264,12 +280,13 @@ impl<'a> Gen<'a> {
           let w = *self.rng.pick(ws);
           let w2 = *self.rng.pick(ws);
           let stem: String = w.chars().take(3).collect();
-          let pat: String = match self.rng.below(6) {
+          let pat: String = match self.rng.below(7) {
             0 => w.to_string(),
             1 => format!("{w}|{w2}"),
             2 => format!("{stem}.*"),
             3 => format!("{w}s?"),
             4 => format!("{stem}[a-z]+"),
+            5 => format!("{stem}[a-z]*"),
             _ => format!("({w}|{w2})"),
           };
           ("regex", json!({"type":"regex","field": self.text_field(), "value": pat}))
@@ -718,8 +735,34 @@ fn run_request(
   };
   let mech = to_ids("mech");
   let spec_layout = to_ids("spec");
-  let hasq = to_ids("has_qualified");
+  // positions (segment, ordinal) listed under some scored term; ids are not unique across
+  // segments (an upserted document leaves a tombstoned older version behind)
+  let mut hasq_pos: BTreeSet<(usize, u64)> = BTreeSet::new();
+  for (si, ords) in m["has_qualified"].as_array().cloned().unwrap_or_default().iter().enumerate() {
+    for o in ords.as_array().cloned().unwrap_or_default() {
+      hasq_pos.insert((si, o.as_u64().unwrap_or(u64::MAX)));
+    }
+  }
+  let mut live_pos: BTreeMap<String, (usize, u64)> = BTreeMap::new();
+  for (si, (seg, ids)) in b.segments.iter().zip(b.seg_ids.iter()).enumerate() {
+    let del: BTreeSet<u64> = seg["deleted"].as_array().cloned().unwrap_or_default().iter().filter_map(|x| x.as_u64()).collect();
+    for (o, id) in ids.iter().enumerate() {
+      if !del.contains(&(o as u64)) {
+        live_pos.insert(id.clone(), (si, o as u64));
+      }
+    }
+  }
+  let hasq = |id: &String| live_pos.get(id).map(|p| hasq_pos.contains(p)).unwrap_or(false);
+  let mut rxmiss_pos: BTreeSet<(usize, u64)> = BTreeSet::new();
+  for (si, ords) in m["rx_prefix_miss"].as_array().cloned().unwrap_or_default().iter().enumerate() {
+    for o in ords.as_array().cloned().unwrap_or_default() {
+      rxmiss_pos.insert((si, o.as_u64().unwrap_or(u64::MAX)));
+    }
+  }
+  let rxmiss = |id: &String| live_pos.get(id).map(|p| rxmiss_pos.contains(p)).unwrap_or(false);
+  let below_caps = m["below_caps"] == json!(true);
   let nqual = m["n_qualified"].as_u64().unwrap_or(0);
+  let side = json!({"expansions_complete": m["expansions_complete"], "covered": m["covered"], "below_caps": m["below_caps"], "rx_prefix_ok": m["rx_prefix_ok"], "incomplete_groups": m["incomplete_groups"]});
   // ---- implementation
   let mut req = request.clone();
   req["limit"] = json!(1000);
@@ -784,31 +827,52 @@ fn run_request(
   }
   // ---- finder: documented semantics vs implementation
   let spec = spec_layout;
+  if !below_caps {
+    // the property speaks about expansion terms *below their caps*: above them the documented
+    // behaviour is truncation, which only the mechanism model describes
+    s.count(&format!("{tag}.above-expansion-caps(finder skipped)"));
+    return Some((imp, spec));
+  }
+  let cr = json!({"case": case, "request": request});
   for id in spec.difference(&imp) {
-    if nqual > 0 && !hasq.contains(id) {
+    let obs = json!({"missing": id, "returned": imp, "expected": spec, "model_side_conditions": side});
+    if nqual > 0 && !hasq(id) {
       s.fail(
         "candidates.unscored-required-doc",
         "a live document satisfying the query is not returned; it contains no scored term of the request (candidates are taken from scored postings only)",
-        &json!({"case": case, "request": request}),
-        json!({"missing": id, "returned": imp, "expected": spec}),
+        &cr,
+        obs,
+      );
+    } else if rxmiss(id) {
+      s.fail(
+        "regex.literal-prefix",
+        "a live document satisfying the query is not returned; it matches a regex clause only through a term that does not start with regex_literal_prefix(pattern), which the dictionary scan skips",
+        &cr,
+        obs,
       );
     } else {
       s.fail(
         "match.missing-doc",
         "a live document satisfying the query is not returned although it contains a scored term (or the request has none)",
-        &json!({"case": case, "request": request}),
-        json!({"missing": id, "returned": imp, "expected": spec}),
+        &cr,
+        obs,
       );
     }
   }
   for id in imp.difference(&spec) {
-    let what = if live.contains_key(id) { "a returned document does not satisfy the query" } else { "a deleted or unknown document is returned" };
-    s.fail(
-      if live.contains_key(id) { "match.extra-doc" } else { "match.dead-doc" },
-      what,
-      &json!({"case": case, "request": request}),
-      json!({"extra": id, "returned": imp, "expected": spec}),
-    );
+    let obs = json!({"extra": id, "returned": imp, "expected": spec, "model_side_conditions": side});
+    if !live.contains_key(id) {
+      s.fail("match.dead-doc", "a deleted or unknown document is returned", &cr, obs);
+    } else if rxmiss(id) {
+      s.fail(
+        "regex.literal-prefix",
+        "a returned document does not satisfy the query: a negated regex clause matches it only through a term that does not start with regex_literal_prefix(pattern), which the dictionary scan skips",
+        &cr,
+        obs,
+      );
+    } else {
+      s.fail("match.extra-doc", "a returned document does not satisfy the query", &cr, obs);
+    }
   }
   Some((imp, spec))
 }
@@ -856,7 +920,7 @@ impl Prop for C07 {
       }
       commits.push(json!({"add": adds, "delete": dels}));
     }
-    let mut g = Gen { rng, text_fields: tnames.clone(), kw_fields: kwnames.clone(), has_year, free: (0..FAMILIES.len()).collect(), kinds: BTreeSet::new() };
+    let mut g = Gen { rng, text_fields: tnames.clone(), kw_fields: kwnames.clone(), has_year, free: (0..FAMILIES.len()).collect(), free_tags: (0..TAGS.len()).collect(), kinds: BTreeSet::new() };
     let depth = g.rng.below(5);
     let query = if g.rng.chance(1, 12) { json!(g.query_text(true, true)) } else { g.node(depth, true) };
     let mut request = json!({"query": query});
@@ -867,7 +931,8 @@ impl Prop for C07 {
       request["fields"] = json!(g.fields_list());
     }
     if g.rng.chance(1, 6) {
-      request["fuzzy"] = json!({"max_edits": g.rng.below(3), "prefix_length": 1 + g.rng.below(2), "max_expansions": [1, 3, 50][g.rng.below(3)], "min_length": 3 + g.rng.below(2)});
+      let mx = [1usize, 3, 50][g.rng.below(3)];
+      request["fuzzy"] = json!({"max_edits": g.rng.below(3), "prefix_length": 1 + g.rng.below(2), "max_expansions": mx, "min_length": 3 + g.rng.below(2)});
     }
     let qs = g.query_text(false, true);
     json!({"schema": schema, "commits": commits, "request": request, "parse": qs})
